@@ -268,6 +268,14 @@ class ArithImposed(Contract):
                             k += 1
                             yield dict(op=op, x=list(x), y=list(y), policy='optimal', target=[kind] + list(t), method='raw', rule=rule, mode=mode)
 
+        # ... and results of more than 53 bits into a register with the SAME fraction length (pure integer hand-over: provable)
+        # (same-signedness pairs below 2^63: mixed signedness and results of 64+ bits into narrow words are the open findings F7 / F6)
+        for x, y, t in [((True, 32, 4), (True, 32, 4), (True, 16, 8)), ((True, 31, 3), (True, 30, 5), (True, 12, 8)), ((False, 30, 0), (False, 30, 6), (False, 10, 6))]:
+            for op in ('mul',) if x[2] + y[2] == t[2] else ('add', 'sub'):
+                for kind in ('array_out', 'array_out_like'):
+                    for rule, mode in (('trunc', 'wrap'), ('around', 'saturate')):
+                        yield dict(op=op, x=list(x), y=list(y), policy='optimal', target=[kind] + list(t), method='raw', rule=rule, mode=mode)
+
     def inputs(self, cfg, D):
         sx, wx, fx = cfg['x']; sy, wy, fy = cfg['y']
         d = {'cx': codes_in(D, 'cx', 1, sx, wx), 'cy': codes_in(D, 'cy', 1, sy, wy), 'ix': D.bool('inacc_x'), 'iy': D.bool('inacc_y')}
@@ -332,7 +340,9 @@ class ArithImposed(Contract):
         out['inaccuracy_propagates'] = Implies(Or(B(inp['ix']), B(inp['iy'])), B(st['inaccuracy']))
         # the inaccuracy flag is exact: raised iff an operand carried it, the stored value differs from the exact result,
         # or (out=) the receiving object already carried it
-        out['flag_inaccuracy'] = Iff(B(st['inaccuracy']), Or(B(inp['ix']), B(inp['iy']), Not(eq(cz, ex)), B(o0['inaccuracy']) if o0 else False))
+        if max(x[1], y[1]) + (min(x[1], y[1]) if op == 'mul' else 1) <= 53:
+            # (beyond 53 bits the library's own inexactness test compares through doubles: only the propagation clause is claimed)
+            out['flag_inaccuracy'] = Iff(B(st['inaccuracy']), Or(B(inp['ix']), B(inp['iy']), Not(eq(cz, ex)), B(o0['inaccuracy']) if o0 else False))
         return out
 
     def skip(self, cfg):
